@@ -482,6 +482,7 @@ def run(ctx):
 
 
 SELFTEST = [
+    ('covobs-early-return', 'pyerrors/covobs.py', '        for i in range(self.N):\n            for j in range(i):', '        if self.N == 1:\n            return\n        for i in range(self.N):\n            for j in range(i):', 'C04-D3'),
     ('definiteness-only-for-matrices', 'pyerrors/covobs.py', "        evals = np.linalg.eigvalsh(self._cov)\n        for ev in evals:\n            if ev < 0:\n                raise Exception('Covariance matrix is not positive-semidefinite!')", "        if np.array(cov).ndim == 2:\n            evals = np.linalg.eigvalsh(self._cov)\n            for ev in evals:\n                if ev < 0:\n                    raise Exception('Covariance matrix is not positive-semidefinite!')", 'C04-D3'),
     ('fix-reverted-descending-range', 'pyerrors/obs.py', "                    if idx.step < 0:\n                        raise ValueError(\"Unsorted idx for idl[%s]\" % (name))\n", "", 'C04-D3'),
     ('range-shortcut-before-order-tests', 'pyerrors/obs.py', "                    if np.any(dc < 0):", "                    if len(dc) == 1:\n                        self.idl[name] = range(idx[0], idx[-1] + dc[0], dc[0])\n                        continue\n                    if np.any(dc < 0):", 'C04-D3'),
